@@ -84,6 +84,40 @@ def channels(tier):
     return ch
 
 
+def partitions(nlab, tier):
+    """REST partitions of a run of nlab steps into run-step (s), run-steps of k steps (Sk) and a final stream-steps (t);
+    a '*' marks a request that carries a setting.  Quick: a spread sample; thorough: all (up to the time budget)."""
+    out = []
+
+    def comp(left, acc):
+        if left == 0:
+            out.append(list(acc))
+            return
+        out.append(list(acc) + ["t"])               # the stream takes whatever is left
+        for k, tok in ((1, "s"), (2, "S2"), (3, "S3")):
+            if k <= left:
+                comp(left - k, acc + [tok])
+    comp(nlab, [])
+    out = [p for p in out if p]
+    marked = []
+    for i, p in enumerate(out):
+        marked.append("-".join(p))
+        cand = [j for j, tk in enumerate(p) if tk != "t" and j > 0]
+        if cand:
+            j = cand[i % len(cand)]
+            q = list(p)
+            q[j] = q[j] + "*"
+            if len(cand) > 1:
+                j2 = cand[(i + 1) % len(cand)]
+                if j2 != j:
+                    q[j2] = q[j2] + "*"
+            marked.append("-".join(q))
+    marked = sorted(set(marked))
+    if tier == "quick":
+        marked = marked[::5]
+    return ["rest:part:" + m for m in marked]
+
+
 def run_channel(spec, channel, mode, env=None):
     """-> (results {eq: {t: v}}, changes for the oracle, base constants)"""
     env = env or {}
@@ -202,6 +236,26 @@ def run_channel(spec, channel, mode, env=None):
     elif channel == "rest:step+stream":
         take(post("/%s/run-step" % inst))
         take(post("/%s/stream-steps" % inst))
+    elif channel.startswith("rest:part:"):
+        done = 0
+        for tk in channel[len("rest:part:"):].split("-"):
+            setting = tk.endswith("*")
+            tk = tk.rstrip("*")
+            st = {}
+            if setting:
+                v = scen.sym_const("c_at%d" % done) if mode == "sym" else float(env.get("c_at%d" % done, 3.25 + done))
+                changes.append((done, {"c": v}))
+                st = {"sm": {"A": {"constants": {"c": v}}}}
+            if tk == "s":
+                take(post("/%s/run-step" % inst, {"settings": st}) if setting else post("/%s/run-step" % inst))
+                done += 1
+            elif tk == "t":
+                take(post("/%s/stream-steps" % inst))
+                done = nlab
+            else:
+                k = int(tk[1:])
+                take(post("/%s/run-steps" % inst, {"numberSteps": k, "settings": st}))
+                done += k
     elif channel == "rest:siblings-settings":
         take(post("/%s/run-step" % inst))
         take(post("/%s/run-step" % inst, {"settings": {"sm": {"S0": {"constants": {"c": new_c(mode, env, "c_s0"), "k": new_c(mode, env, "k_s0")}}}}}))
@@ -366,6 +420,8 @@ def run(tier):
     harness.install_sd_stubs(stubs)
     scen.install_json_hooks(stubs)
     tasks = [(sp, ch) for sp in specs(tier) for ch in channels(tier)]
+    part_specs = specs(tier)[:8:2] if tier == "quick" else specs(tier)
+    tasks += [(sp, ch) for sp in part_specs for ch in partitions(sp[2] + 1, tier)]
     counts = {"holds": 0, "violated": 0, "unknown": 0}
     samples, bad = [], []
     try:
@@ -393,7 +449,8 @@ def run(tier):
         rep.candidate(sig, {"spec": list(sp), "channel": ch, "env": env}, "channel %s, start=%s dt=%s steps=%s: %s" % (ch, sp[0], sp[1], sp[2], info.get("_what")))
     rep.assume("one SD-DSL model (stock, clamped flow, two lookups, dt()/starttime() converter); run specs from the lattice; constants symbolic",
                "REST through Flask's test client; symbolic values cross JSON via the encoder hooks json/jsonpickle offer for user types",
-               "per-step settings: a constant is given a fresh symbol at one step; reference = fresh model with the constant piecewise in time")
+               "per-step settings: a constant is given a fresh symbol at one step; reference = fresh model with the constant piecewise in time",
+               "REST partitions: every composition of the run into run-step / run-steps(2|3) requests with an optional final stream-steps, each also with one or two requests carrying a setting (quick: every 5th partition on 4 run specs; thorough: all)")
     rep.coverage.update({"states": len(tasks), "transitions": max(1, counts["holds"]), "traces_validated_against_impl": len(seen),
                          "samples": samples, "verdicts": counts, "exhaustive": True,
                          "explanation": "states = (run spec, channel) pairs; transitions = pairs proved equal to the reference for all constant values with exactly the grid labels",
